@@ -26,6 +26,7 @@ type schemaValidationSettings struct {
 
 	onceSettingDefaults sync.Once
 	defaultsSet         func()
+	trial               int // > 0 while a oneOf/anyOf candidate is tried on a private copy of the value (request / response reading)
 
 	customizeMessageError func(err *SchemaError) string
 }
